@@ -1,6 +1,6 @@
 (** Protocol operations for C02 (see Lib/Val.v). *)
 From Coq Require Import ZArith List Bool String.
-From Low Require Import Lib.Bits Lib.BitSeq Lib.Val Model.Rank Model.Select Model.BitmapNext Spec.RankSpec Spec.SelectSpec Spec.SelectRankSpec.
+From Low Require Import Lib.Bits Lib.BitSeq Lib.Val Model.Rank Model.Select Model.BitmapNext Model.BitmapOf Spec.RankSpec Spec.SelectSpec Spec.SelectRankSpec.
 Import ListNotations.
 Open Scope string_scope.
 Open Scope Z_scope.
@@ -279,4 +279,56 @@ Definition ops_C02_next : list opdef := [
        | _ => VBad end) |}
 ].
 
-Definition ops_C02 : list opdef := ops_C02_base ++ ops_C02_widen ++ ops_C02_next.
+(** * widened: select against ToArray (toarray.go; model in Model/BitmapOf.v): one case = the whole
+      bitmap, [ToArray(words); Select(i) for every i < len(ToArray(words))] *)
+Fixpoint c02_all_selects (sel : Z -> option (Z * Z)) (is : list nat) : option (list val) :=
+  match is with
+  | [] => Some []
+  | i :: t => match sel (Z.of_nat i), c02_all_selects sel t with
+              | Some p, Some r => Some (c02_pair p :: r)
+              | _, _ => None
+              end
+  end.
+
+Definition c02_sweep_spec (ws : list Z) : val :=
+  let os := all_ones ws in
+  VL [vzs os; VL (map (fun i => c02_pair (spec_Select ws (Z.of_nat i))) (seq 0 (List.length os)))].
+
+Definition ops_C02_toarray : list opdef := [
+  {| op_name := "bitmap.Select32/ToArray";
+     op_run := fun a => match a with
+       | [ws] => match as_zs ws with
+           | Some ws =>
+               match ToArray ws, IndexSelect32 ws with
+               | Some ta, Some sidx =>
+                   match c02_all_selects (Select32 ws sidx) (seq 0 (List.length ta)) with
+                   | Some r => VL [vzs ta; VL r]
+                   | None => VPanic
+                   end
+               | _, _ => VPanic
+               end
+           | None => VBad end
+       | _ => VBad end;
+     op_spec := fun_spec (fun a => match a with
+       | [ws] => match as_zs ws with Some ws => c02_sweep_spec ws | None => VBad end
+       | _ => VBad end) |};
+  {| op_name := "bitmap.Select32R64/ToArray";
+     op_run := fun a => match a with
+       | [ws] => match as_zs ws with
+           | Some ws =>
+               match ToArray ws, IndexSelect32R64 ws with
+               | Some ta, Some (sidx, ridx) =>
+                   match c02_all_selects (Select32R64 ws sidx ridx) (seq 0 (List.length ta)) with
+                   | Some r => VL [vzs ta; VL r]
+                   | None => VPanic
+                   end
+               | _, _ => VPanic
+               end
+           | None => VBad end
+       | _ => VBad end;
+     op_spec := fun_spec (fun a => match a with
+       | [ws] => match as_zs ws with Some ws => c02_sweep_spec ws | None => VBad end
+       | _ => VBad end) |}
+].
+
+Definition ops_C02 : list opdef := ops_C02_base ++ ops_C02_widen ++ ops_C02_next ++ ops_C02_toarray.
